@@ -198,6 +198,11 @@ func (x *Exec) freshValue(name string, t types.Type, depth int) Value {
 	switch u := t.Underlying().(type) {
 	case *types.Basic:
 		if isString(t) {
+			if n, ok := x.shapeLen[name]; ok {
+				cs := x.freshConcreteSlice(name, types.Typ[types.Uint8], n, depth).(SliceV)
+				cs.Str = true
+				return cs
+			}
 			sv := x.freshSymSlice(name, 8, types.Typ[types.Uint8])
 			sv.Str = true
 			sv.Cap = sv.Len
